@@ -371,7 +371,12 @@ def check_frozendict(ctx, cls_fq):
         raise AnalysisError('anchor vanished: %s.__hash__' % cls_fq)
     ctx.saw('functions', h.fq)
     n_hash = 0
-    for n in ast.walk(h.node):
+    hscope = [h]
+    for n in ast.walk(h.node):        # private module-level helpers given the receiver (extracted hash computation)
+        if isinstance(n, ast.Call) and isinstance(n.func, ast.Name) and n.func.id in h.module.functions and \
+                n.func.id.startswith('_') and any(txt(a) == 'self' for a in n.args):
+            hscope.append(h.module.functions[n.func.id])
+    for n in [x for f in hscope for x in ast.walk(f.node)]:
         if isinstance(n, ast.Call) and call_name(n) == 'hash' and n.args:
             n_hash += 1
             arg = n.args[0]
